@@ -287,7 +287,9 @@ pub const TA_FAULTS: [&str; 5] = ["wrongkey", "sigflip", "expired", "garbage", "
 /// one the (perfectly consistent) trust anchor certificate and its tree use.
 pub fn tal_key_fault(world: &mut World, idx: usize) -> Option<Applied> {
     let tal = world.tals.get_mut(idx)?;
-    tal.key = (tal.key + 13) % 26;
+    // (an offset other than the one `ta:otherkey` uses, so that the two
+    // faults never cancel out)
+    tal.key = (tal.key + 7) % 26;
     Some(Applied { what: format!("tal:otherkey {}", tal.name), ca: String::new(), only_object: None })
 }
 
